@@ -29,6 +29,8 @@ def step (toks : List String) : String :=
   | "temper-grow" :: _ => "same"
   | "ising-nd" :: _ => "same"
   | "ising-nd-fixed" :: _ => "same"
+  | "prepared-ising" :: _ => "same"
+  | "prepared-generic" :: _ => "same"
   | _ => "bad-op"
 
 def main : IO Unit := run step
